@@ -60,12 +60,12 @@ fn main() -> Result<()> {
             generator = generator.with_seed(seed);
         }
 
-        if !mutators.is_empty() {
-            generator = generator
-                .with_mutators(mutators)
-                .with_mutation_rate(args.mutation_rate)
-                .with_unsafe_mutations(args.unsafe_mutations);
-        }
+        // the rate and the unsafe flag are generator settings of their own: forward them whether or
+        // not mutators were requested (--unsafe-mutations alone relaxes the STACK_GLOBAL guard)
+        generator = generator
+            .with_mutators(mutators)
+            .with_mutation_rate(args.mutation_rate)
+            .with_unsafe_mutations(args.unsafe_mutations);
 
         // apply EXT and buffer opcode flags
         generator = generator
@@ -110,18 +110,15 @@ fn main() -> Result<()> {
                     generator = generator.with_seed(s);
                 }
 
-                // Create mutators for this thread
-                if !mutator_kinds_for_batch.is_empty() {
-                    let thread_mutators: Vec<Box<dyn pickle_fuzzer::Mutator>> =
-                        mutator_kinds_for_batch
-                            .iter()
-                            .map(|kind| kind.create(unsafe_mutations))
-                            .collect();
-                    generator = generator
-                        .with_mutators(thread_mutators)
-                        .with_mutation_rate(mutation_rate)
-                        .with_unsafe_mutations(unsafe_mutations);
-                }
+                // Create mutators for this thread; rate and unsafe flag are forwarded in any case
+                let thread_mutators: Vec<Box<dyn pickle_fuzzer::Mutator>> = mutator_kinds_for_batch
+                    .iter()
+                    .map(|kind| kind.create(unsafe_mutations))
+                    .collect();
+                generator = generator
+                    .with_mutators(thread_mutators)
+                    .with_mutation_rate(mutation_rate)
+                    .with_unsafe_mutations(unsafe_mutations);
 
                 // apply EXT and buffer opcode flags
                 generator = generator
